@@ -46,7 +46,12 @@ def diagnose(a, fs, c, f, got, want, inputs_damaged):
         # CHG / REP block: what does the recorded (past) hash describe?
         hn = refhash.digest(c.hash, c.hashseed, w, c.hashsize)
         if h == hn:
-            reasons.add("%s-block-records-hash-of-new-data-but-got-other-bytes" % st)
+            if inputs_damaged and refhash.digest(c.hash, c.hashseed, g, c.hashsize) != h:
+                # the past hash happens to describe the new bytes too (same data re-added at the position), but what fix wrote is
+                # neither: rebuilt from inputs the harness damaged and accepted because it does not hash to the past hash
+                reasons.add("%s-block-rebuilt-from-damaged-parity-accepted-because-hash-differs-from-past" % st)
+            else:
+                reasons.add("%s-block-records-hash-of-new-data-but-got-other-bytes" % st)
             continue
         # search the version store for the old occupant: any block of any version ever written on this disk
         occ = None
@@ -61,7 +66,12 @@ def diagnose(a, fs, c, f, got, want, inputs_damaged):
             if occ is not None:
                 break
         hg = refhash.digest(c.hash, c.hashseed, g, c.hashsize)
-        if st == CHG and h == b"\xff" * len(h) and g != w and g.strip(b"\x00") != b"" and not inputs_damaged:
+        if st == CHG and h == b"\xff" * len(h) and g.strip(b"\x00") == b"" and w.strip(b"\x00") != b"":
+            # ZERO past hash = "the position was empty before" and zeros is what fix wrote: the OLD state of the position was
+            # written under the new file's name and reported as recovered (the heuristics accept a rebuilt block only when it
+            # is NOT what the past hash describes - this is the opposite)
+            reasons.add("chg-block-zero-past-hash-and-zeros-written-as-recovered")
+        elif st == CHG and h == b"\xff" * len(h) and g != w and g.strip(b"\x00") != b"" and not inputs_damaged:
             # ZERO past hash = "the position was empty before": the rebuilt bytes are whatever parity the unused
             # stripe still held (parity of freed stripes is never cleared), accepted because they are not zero
             reasons.add("chg-block-zero-past-hash-rebuilt-from-stale-parity-of-previously-unused-stripe")
